@@ -1712,6 +1712,12 @@ class Interp:
                     out.append(a)
                 elif _is_rep(a) and getattr(a.lit, name)() == a.lit:
                     out.append(a)
+                elif _is_rep(a):
+                    out.append(Rep(getattr(a.lit, name)(), a.count))
+                elif isinstance(a, Run) and all(c.members is not None and len(c.members) == 1 for c in a.classes):
+                    # every character of the run rendered through the case mapping, in order
+                    from .absval import MappedRun
+                    out.append(MappedRun(a, {c.name: getattr(next(iter(c.members)), name)() for c in a.classes}))
                 else:
                     raise CannotDecide("string method %s on %r" % (name, recv))
             return simplify_str(AbsStr(out))
